@@ -5,6 +5,8 @@ from typing import TYPE_CHECKING
 import numpy as np
 from numpy.random import default_rng
 
+from ropt.enums import OptimizerExitCode
+from ropt.exceptions import OptimizationAborted
 from ropt.results import (
     ConstraintInfo,
     FunctionEvaluations,
@@ -163,7 +165,8 @@ class EnsembleEvaluator:
         (
             objective_weights,
             constraint_weights,
-        ) = self._calculate_filtered_realization_weights(f_eval_results)
+            filters_succeeded,
+        ) = self._get_filtered_weights(f_eval_results)
 
         assert self._config.gradient.perturbation_min_success is not None
         failed_realizations = _get_failed_realizations(
@@ -173,7 +176,7 @@ class EnsembleEvaluator:
         )
 
         assert self._config.realizations.realization_min_success is not None
-        if (
+        if filters_succeeded and (
             np.count_nonzero(~failed_realizations)
             >= self._config.realizations.realization_min_success
         ):
@@ -320,9 +323,8 @@ class EnsembleEvaluator:
         (
             objective_weights,
             constraint_weights,
-        ) = self._calculate_filtered_realization_weights(
-            f_eval_results,
-        )
+            filters_succeeded,
+        ) = self._get_filtered_weights(f_eval_results)
 
         assert self._config.gradient.perturbation_min_success is not None
         failed_realizations = _get_failed_realizations(
@@ -331,7 +333,7 @@ class EnsembleEvaluator:
             self._config.gradient.perturbation_min_success,
         )
         assert self._config.realizations.realization_min_success is not None
-        if (
+        if filters_succeeded and (
             np.count_nonzero(~failed_realizations)
             >= self._config.realizations.realization_min_success
         ):
@@ -369,7 +371,7 @@ class EnsembleEvaluator:
             self._config.gradient.perturbation_min_success,
         )
         assert self._config.realizations.realization_min_success is not None
-        if (
+        if filters_succeeded and (
             np.count_nonzero(~failed_realizations)
             >= self._config.realizations.realization_min_success
         ):
@@ -408,7 +410,46 @@ class EnsembleEvaluator:
 
         return function_results, gradient_results
 
+    def _get_filtered_weights(
+        self, evaluator_results: _FunctionEvaluatorResults
+    ) -> tuple[NDArray[np.float64] | None, NDArray[np.float64] | None, bool]:
+        # A filter that is left without realizations signals too few
+        # realizations. That is reported via the results, like any other
+        # failure, so that the results are still passed on:
+        try:
+            return (
+                *self._calculate_filtered_realization_weights(evaluator_results),
+                True,
+            )
+        except OptimizationAborted as exc:
+            if exc.exit_code != OptimizerExitCode.TOO_FEW_REALIZATIONS:
+                raise
+            return None, None, False
+
     def _compute_functions(
+        self,
+        objectives: NDArray[np.float64],
+        constraints: NDArray[np.float64] | None,
+        objective_weights: NDArray[np.float64] | None,
+        constraint_weights: NDArray[np.float64] | None,
+        failed_realizations: NDArray[np.bool_],
+    ) -> Functions | None:
+        # A function estimator that is left with too few realizations is
+        # reported via the results, like any other failure:
+        try:
+            return self._estimate_functions(
+                objectives,
+                constraints,
+                objective_weights,
+                constraint_weights,
+                failed_realizations,
+            )
+        except OptimizationAborted as exc:
+            if exc.exit_code != OptimizerExitCode.TOO_FEW_REALIZATIONS:
+                raise
+            return None
+
+    def _estimate_functions(
         self,
         objectives: NDArray[np.float64],
         constraints: NDArray[np.float64] | None,
@@ -458,6 +499,37 @@ class EnsembleEvaluator:
         )
 
     def _compute_gradients(  # noqa: PLR0913
+        self,
+        variables: NDArray[np.float64],
+        mask: NDArray[np.bool_] | None,
+        perturbed_variables: NDArray[np.float64],
+        objectives: NDArray[np.float64],
+        constraints: NDArray[np.float64] | None,
+        perturbed_objectives: NDArray[np.float64],
+        perturbed_constraints: NDArray[np.float64] | None,
+        objective_weights: NDArray[np.float64] | None,
+        constraint_weights: NDArray[np.float64] | None,
+        failed_realizations: NDArray[np.bool_],
+    ) -> Gradients | None:
+        try:
+            return self._estimate_gradients(
+                variables,
+                mask,
+                perturbed_variables,
+                objectives,
+                constraints,
+                perturbed_objectives,
+                perturbed_constraints,
+                objective_weights,
+                constraint_weights,
+                failed_realizations,
+            )
+        except OptimizationAborted as exc:
+            if exc.exit_code != OptimizerExitCode.TOO_FEW_REALIZATIONS:
+                raise
+            return None
+
+    def _estimate_gradients(  # noqa: PLR0913
         self,
         variables: NDArray[np.float64],
         mask: NDArray[np.bool_] | None,
